@@ -874,6 +874,263 @@ def h_instance_state(ctx):
                    construct="class %s: %s = %s" % (clsname.split(".")[-1], f, stmt_text(shared) if shared is not None else "<no class attribute>"))
 
 
+
+@R.clause("C18.k", "an observation that is being iterated over terminates with the library error shutdown sends it: the single-slot mailbox of ClientObservation's async iterator never discards a queued error (shared with C07.g)")
+def k_shared(ctx):
+    """Shutdown fails every observation through its errbacks; for a consumer in `async for` that is
+    _Iterator.push_err, which may have to put the error into a *replacement* future when the previous one already
+    holds a notification the consumer has not fetched yet.  An independently written breaking change let __anext__
+    re-arm unconditionally after its await: the replacement future -- and LibraryShutdown in it -- was thrown
+    away, and the `async for` hung for ever.  The obligations are exactly the mailbox discipline of C07.g."""
+    from . import c07
+    c07.g_lossy_iterator(ctx)
+
+
+# --- C18.l: the keys of the timer tables stay findable ---------------------------------------------------------------
+# Modules whose functions read the clock, the allocator, the collector or the outside world: a value obtained from
+# them differs from call to call.
+_VOLATILE_MODULES = ("time", "random", "os", "uuid", "secrets", "datetime", "asyncio", "weakref", "gc", "sys", "socket", "threading", "itertools")
+_IMPURE_BUILTINS = {"input", "open", "eval", "exec", "globals", "locals", "vars", "breakpoint", "__import__", "compile", "next", "iter", "setattr", "delattr", "dir"}
+_PROPERTY_DECOS = {"property", "functools.cached_property", "cached_property", "abc.abstractproperty"}
+
+
+class _KeyState:
+    """Which state of an instance does a method's result depend on?  Walks the method, every method / property /
+    class-level `property(...)` getter of the class it uses on the instance (MRO of the analysed package), every
+    package function the instance is handed to, and collects
+      fields   {name: [(host description, node)]}  instance fields read (after property / helper expansion)
+      volatile [(why, node)]                        calls whose value changes between two calls on the same state
+    Anything it cannot follow is refused (AnalysisError), never guessed."""
+
+    def __init__(self, ctx, clsqn):
+        self.ctx = ctx
+        self.prog = ctx.prog
+        self.clsqn = clsqn
+        self.fields = {}
+        self.volatile = []
+        self.seen = set()
+
+    def method(self, fi, bind=None):
+        """scan function fi; `bind` = names of parameters that hold the instance (default: the first one)"""
+        ps = [a.arg for a in fi.node.args.posonlyargs + fi.node.args.args]
+        if bind is None:
+            bind = set(ps[:1])
+        key = (fi.qn, tuple(sorted(bind)))
+        if key in self.seen:
+            return
+        self.seen.add(key)
+        for nm in bind:
+            self.ctx.need(not writes_to_name(fi.node, nm), "%s rebinds the instance parameter %s" % (fi.short, nm))
+        self.scan(fi.module, fi.node.body, bind, fi.short)
+
+    def scan(self, module, roots, selfnames, where):
+        import builtins
+        prog = self.prog
+        todo = list(roots)
+        parent = {}
+        nodes = []
+        while todo:
+            n = todo.pop()
+            nodes.append(n)
+            if isinstance(n, (ast.FunctionDef, ast.AsyncFunctionDef, ast.ClassDef)) and n not in roots:
+                # a nested def is followed only if it is called; refuse rather than guess
+                raise AnalysisError("%s defines a nested function/class; the key-state walk does not follow it" % where)
+            for c in ast.iter_child_nodes(n):
+                parent[id(c)] = n
+                todo.append(c)
+        for n in nodes:
+            if isinstance(n, ast.Attribute) and isinstance(n.value, ast.Name) and n.value.id in selfnames:
+                self.ctx.need(isinstance(n.ctx, ast.Load), "%s writes instance state while computing the key" % where)
+                par = parent.get(id(n))
+                called = isinstance(par, ast.Call) and par.func is n
+                self.attribute(module, n, called, where)
+            elif isinstance(n, ast.Name) and n.id in selfnames and isinstance(n.ctx, ast.Load):
+                par = parent.get(id(n))
+                if isinstance(par, ast.Attribute) and par.value is n:
+                    continue
+                # the bare instance: harmless in identity/type tests, followed into package functions, else refused
+                if isinstance(par, ast.Compare):
+                    continue
+                if isinstance(par, ast.Call) and n in par.args:
+                    cn = chain(par.func)
+                    q = prog.resolve_in_module(module, cn) if cn else None
+                    if q in ("isinstance", "type", "id", "issubclass"):
+                        continue
+                    if q == "getattr" and par.args[0] is n and len(par.args) >= 2 and isinstance(par.args[1], ast.Constant) and isinstance(par.args[1].value, str):
+                        fake = ast.Attribute(value=n, attr=par.args[1].value, ctx=ast.Load())
+                        ast.copy_location(fake, par)
+                        self.attribute(module, fake, False, where)
+                        continue
+                    if q in prog.funcs and not any(isinstance(a, ast.Starred) for a in par.args) and not par.keywords:
+                        g = prog.funcs[q]
+                        gps = [a.arg for a in g.node.args.posonlyargs + g.node.args.args]
+                        off = 1 if g.cls is not None and gps[:1] == ["self"] else 0
+                        bind = {gps[i + off] for i, a in enumerate(par.args) if isinstance(a, ast.Name) and a.id in selfnames and i + off < len(gps)}
+                        self.method(g, bind)
+                        continue
+                raise AnalysisError("%s hands the instance to something the key-state walk cannot follow: %s" % (where, stmt_text(par if par is not None else n, 60)))
+            elif isinstance(n, ast.Call):
+                cn = chain(n.func)
+                if cn is None:
+                    continue
+                head = cn.split(".")[0]
+                if head in selfnames:
+                    continue  # decided by attribute()
+                q = prog.resolve_in_module(module, cn)
+                if "." not in cn:
+                    if q == cn and hasattr(builtins, cn):
+                        if cn in _IMPURE_BUILTINS:
+                            raise AnalysisError("%s uses %s(); the key-state walk cannot tell what the key depends on" % (where, cn))
+                        continue
+                    if q in prog.funcs:
+                        self.method(prog.funcs[q], set())
+                        continue
+                    if q in prog.classes:
+                        continue
+                    # a local callable (parameter, local name): refuse unless it is a plain local value's method
+                    if q.split(".")[0] in _VOLATILE_MODULES:
+                        self.volatile.append(("%s() in %s" % (q, where), n))
+                        continue
+                    raise AnalysisError("%s calls %s, which the key-state walk cannot resolve" % (where, cn))
+                if q.split(".")[0] in _VOLATILE_MODULES:
+                    self.volatile.append(("%s() in %s" % (q, where), n))
+                elif q in prog.funcs:
+                    self.method(prog.funcs[q], set())
+                # otherwise: a method of a value (`s.lower()`, `t.__getitem__(..)`) -- values of key fields are
+                # immutable builtins as far as this clause's writer obligation goes (assigned once, by the constructor)
+            elif isinstance(n, (ast.Await, ast.Yield, ast.YieldFrom)):
+                raise AnalysisError("%s suspends while computing a key" % where)
+
+    def attribute(self, module, n, called, where):
+        prog = self.prog
+        x = n.attr
+        m = prog.lookup_method(self.clsqn, x)
+        if m is not None:
+            decos = {prog.resolve_in_module(m.module, chain(d) or "") for d in m.node.decorator_list if chain(d)}
+            if called or decos & _PROPERTY_DECOS or any(d.endswith(".getter") for d in decos):
+                if "staticmethod" in decos:
+                    self.method(m, set())
+                else:
+                    self.method(m)
+            return  # a bound method that is not called is a constant of the instance
+        expr, owner = prog.class_attr(self.clsqn, x)
+        if expr is not None:
+            if isinstance(expr, ast.Call) and chain(expr.func) and prog.resolve_in_module(owner.module, chain(expr.func)) == "property":
+                getter = expr.args[0] if expr.args else next((k.value for k in expr.keywords if k.arg == "fget"), None)
+                self.ctx.need(getter is not None, "property %s without a getter" % x)
+                if isinstance(getter, ast.Lambda):
+                    ps = [a.arg for a in getter.args.posonlyargs + getter.args.args]
+                    self.ctx.need(len(ps) == 1, "property %s: getter signature" % x)
+                    key = (owner.qn, x)
+                    if key not in self.seen:
+                        self.seen.add(key)
+                        self.scan(owner.module, [getter.body], {ps[0]}, "%s.%s" % (owner.qn.split(".")[-1], x))
+                    return
+                if isinstance(getter, ast.Name):
+                    g = owner.methods.get(getter.id) or prog.funcs.get(prog.resolve_in_module(owner.module, getter.id))
+                    self.ctx.need(g is not None, "property %s: getter %s not found" % (x, getter.id))
+                    self.method(g)
+                    return
+                raise AnalysisError("property %s: getter is neither a lambda nor a named function" % x)
+            if isinstance(expr, ast.Lambda) and called:
+                ps = [a.arg for a in expr.args.posonlyargs + expr.args.args]
+                self.scan(owner.module, [expr.body], set(ps[:1]), "%s.%s" % (owner.qn.split(".")[-1], x))
+                return
+            if isinstance(expr, ast.Constant) or not called:
+                # a class-level constant -- unless instances shadow it, which the field bookkeeping below decides
+                pass
+            else:
+                raise AnalysisError("class attribute %s is called while computing a key; the walk cannot follow it" % x)
+        self.fields.setdefault(x, []).append((where, n))
+
+
+def _field_history(ctx, clsqn, field):
+    """Every store to <instance>.<field> of the class family (the class, its bases and its subclasses):
+    -> ([(fi, stmt, value or None, in_constructor)], foreign) where `foreign` lists stores to an attribute of that
+    name through a receiver that is not `self` of a related method (whose object that is cannot be told)."""
+    prog = ctx.prog
+    family = set(prog.mro(clsqn)) | set(prog.subclasses(clsqn))
+    mine, foreign = [], []
+    for fi in prog.funcs.values():
+        for n in walk_with_lambdas(fi.node):
+            if not (isinstance(n, ast.Attribute) and n.attr == field and isinstance(n.ctx, (ast.Store, ast.Del))):
+                continue
+            owner = fi
+            while owner.cls is None and owner.parent is not None:
+                owner = owner.parent
+            ps = [a.arg for a in owner.node.args.posonlyargs + owner.node.args.args]
+            is_self = isinstance(n.value, ast.Name) and owner.cls is not None and ps[:1] == [n.value.id] and not (owner is not fi and n.value.id in [a.arg for a in fi.node.args.posonlyargs + fi.node.args.args])
+            if is_self:
+                if owner.cls.qn not in family:
+                    continue  # another class's field of the same name
+                st = cfg_of(fi).parent.get(id(n))
+                val = st.value if isinstance(st, (ast.Assign, ast.AnnAssign)) and (isinstance(st, ast.AnnAssign) or (len(st.targets) == 1 and st.targets[0] is n)) else None
+                mine.append((fi, n, val, fi is owner and fi.name in ("__init__", "__new__")))
+            else:
+                foreign.append((fi, n))
+    return mine, foreign
+
+
+def _is_weak_value(prog, fi, v, depth=0):
+    """the stored value is (or contains) a weak reference: weakref.ref / proxy / WeakMethod / Weak*Dictionary / WeakSet"""
+    if v is None:
+        return False
+    for n in _walk_through_locals(fi.node, v):
+        if isinstance(n, ast.Call) and chain(n.func):
+            q = prog.resolve_in_module(fi.module, chain(n.func))
+            if q.split(".")[0] == "weakref" or q.split(".")[-1] in ("WeakMethod", "WeakSet", "WeakValueDictionary", "WeakKeyDictionary"):
+                return True
+    return False
+
+
+@R.clause("C18.l", "no timer raises after shutdown because its key went astray: the hash of every remote-address class (a component of the keys of the message layer's timer tables, whose expiry callbacks remove their own key) is a function of state that only the constructor writes, reads no weak reference and nothing that changes between two calls")
+def l_stable_keys(ctx):
+    """C18.d accepts `loop.call_later(EXCHANGE_LIFETIME, <remove own key>)` timers that stay armed through shutdown
+    because nothing else removes the entry: the callback finds its key.  That argument silently relies on the key
+    hashing *the same* when the timer fires -- minutes after shutdown, when the context and its transports may have been
+    garbage collected -- as when the entry was stored.  The keys are tuples of the remote, the message ID / token; ints
+    and bytes hash by value, a remote that defines no __hash__ hashes by identity, so the obligation falls on the
+    remote-address classes that define their own __hash__: evaluated over the class (properties, helper methods and
+    package functions expanded) it must depend only on instance fields that are assigned by the constructor alone,
+    none of which holds a weak reference (its referent -- the interface, the context -- dies with the shut-down
+    context and the dereference turns None), and on no clock / random / allocator call.  An independently written
+    breaking change mixed id(self.interface) -- a dereferenced weak reference -- into UDP6EndpointAddress.__hash__:
+    every de-duplication timer that fired after the context was dropped raised KeyError in the event loop."""
+    prog = ctx.prog
+    BASE = "aiocoap.interfaces.EndpointAddress"
+    ctx.need(BASE in prog.classes, "interfaces.EndpointAddress not found")
+    hashes = {}
+    for q in prog.subclasses(BASE):
+        hf = prog.lookup_method(q, "__hash__")
+        if hf is None:
+            expr, owner = prog.class_attr(q, "__hash__")
+            ctx.need(expr is None or (isinstance(expr, ast.Constant) and expr.value is None), "%s.__hash__ is assigned at class level; the rule cannot evaluate it" % q)
+            continue
+        hashes.setdefault(hf.qn, (hf, []))[1].append(q)
+    ctx.floor("remote-address classes with a value-based __hash__", len(hashes), 1)
+    for _qn, (hf, classes) in sorted(hashes.items()):
+        for q in sorted(classes):
+            cname = q.split(".")[-1]
+            ks = _KeyState(ctx, q)
+            ks.method(hf)
+            ctx.ob("%s.__hash__ calls nothing whose value changes between two calls" % cname, not ks.volatile, hf, ks.volatile[0][1] if ks.volatile else hf.node,
+                   construct=None if ks.volatile else "%s.__hash__" % cname, detail=ks.volatile[0][0] if ks.volatile else None)
+            ctx.need(bool(ks.fields) or bool(ks.volatile), "%s.__hash__ depends on no instance state the rule can see" % cname)
+            for f in sorted(ks.fields):
+                where, node = ks.fields[f][0]
+                mine, foreign = _field_history(ctx, q, f)
+                ctx.need(not foreign, "a field named %s is stored through a receiver the rule cannot identify (%s)" % (f, ", ".join(sorted({fi.short for fi, _n in foreign}))))
+                ctx.need(bool(mine), "%s.__hash__ reads self.%s, which nothing assigns" % (cname, f))
+                weak = [(fi, n) for fi, n, v, _c in mine if _is_weak_value(prog, fi, v)]
+                ctx.ob("the hash of a %s does not depend on a weak reference (the referent is gone once the shut-down context is dropped)" % cname, not weak, hf, hf.node,
+                       construct="%s.__hash__ reads self.%s" % (cname, f),
+                       detail=None if not weak else "read in %s; assigned in %s: %s" % (where, weak[0][0].short, stmt_text(cfg_of(weak[0][0]).parent.get(id(weak[0][1])) or weak[0][1], 60)))
+                late = [(fi, n) for fi, n, _v, c in mine if not c]
+                ctx.ob("the state a %s hashes by is written by the constructor only (a key that is in a table never changes its hash)" % cname, not late, hf, hf.node,
+                       construct="%s.__hash__: writers of self.%s" % (cname, f),
+                       detail=None if not late else "read in %s; also written in %s" % (where, late[0][0].short))
+
+
 F_MM = "aiocoap/messagemanager.py"
 R.seed("C18.d", F_MM, "        self._active_exchanges = None\n", "        self._active_exchanges = None\n        self._recent_messages.clear()\n", "de-duplication entries cleared while their pop-without-default expiry timers stay armed: KeyError in the loop after shutdown")
 F_TM = "aiocoap/tokenmanager.py"
@@ -928,3 +1185,16 @@ R.seed("C18.i", F_MM, "        next_retransmission.cancel()\n        if message.
 R.seed("C18.i", F_MM, "            (messageerror_monitor, cancellable_timeout) = self._active_exchanges.pop(k)\n            cancellable_timeout.cancel()\n", "            del self._active_exchanges[k]\n", "exchanges of a failed remote dropped with del, timers left running")
 R.seed("C18.i", F_MM, "        for _mid, empty_ack_timeout in self._piggyback_opportunities.values():\n            # The requests these would acknowledge have been stopped already;\n            # sending after the transport is gone would only raise.\n            empty_ack_timeout.cancel()\n        self._piggyback_opportunities = {}\n", "        self._piggyback_opportunities = {}\n        for _mid, empty_ack_timeout in self._piggyback_opportunities.values():\n            empty_ack_timeout.cancel()\n", "table replaced before the cancel walk reads it: the walk sees the new, empty dict")
 R.seed("C18.i", F_MM, "        self._backlogs.pop(remote, ())\n        # while that's an iterable", "        self._backlogs.pop(remote, ())\n        self._piggyback_opportunities.clear()\n        # while that's an iterable", "a network error forgets every pending empty-ACK timer without cancelling it")
+
+# C18.k: shutdown reaches a consumer that iterates over an observation
+R.seed("C18.k", F_P, "                if f is self._future:\n                    self._future = asyncio.get_running_loop().create_future()", "                self._future = asyncio.get_running_loop().create_future()", "the consumer discards the replacement future that holds LibraryShutdown: the async for hangs")
+R.seed("C18.k", F_P, "        self.register_errback(it.push_err, _suppress_deprecation=True)\n        return it", "        return it", "the shutdown error never reaches the iterator")
+
+# C18.l: keys of the timer tables keep their hash
+F_UDP6 = "aiocoap/transports/udp6.py"
+F_SLIP = "aiocoap/transports/slipmux.py"
+R.seed("C18.l", F_SLIP, "        return hash(self._host)\n", "        return hash((self._host, self._interface()))\n", "hash over a dereferenced weak reference")
+R.seed("C18.l", F_UDP6, "        return hash(self.sockaddr[:-1])\n", "        return hash((self.sockaddr[:-1], self.interface is None))\n", "hash depends, through a property, on whether the interface is still alive")
+R.seed("C18.l", F_UDP6, "    def __hash__(self):\n        return hash(self.sockaddr[:-1])\n", "    def _rebind(self, sockaddr):\n        self.sockaddr = sockaddr\n\n    def __hash__(self):\n        return hash(self.sockaddr[:-1])\n", "the hashed address can be replaced while the remote is a key")
+R.seed("C18.l", F_SLIP, "        return hash(self._host)\n", "        return hash((self._host, time.monotonic() // 3600))\n", "hash changes with the clock")
+R.seed("C18.l", F_UDP6, "        return hash(self.sockaddr[:-1])\n", "        return self._stamp()\n\n    def _stamp(self):\n        return hash((self.sockaddr[:-1], id(self._interface())))\n", "the weak dereference sits in a helper method")
